@@ -39,6 +39,9 @@ func (c cfg) String() string {
 	if c.Override {
 		return fmt.Sprintf("%s+min%d", c.Cache, c.MinTTL)
 	}
+	if c.MinTTL > 0 {
+		return fmt.Sprintf("%s+override-off-min%d", c.Cache, c.MinTTL)
+	}
 	return c.Cache
 }
 
